@@ -143,3 +143,12 @@ fn get_local_table<'a>(
     }
     None
 }
+
+/// Verification hook: the broker's current text of a document.
+#[cfg(feature = "verif")]
+pub async fn verif_text(
+    doctx: Sender<DocumentRequest>,
+    params: lsp_types::TextDocumentIdentifier,
+) -> Result<Option<String>> {
+    Ok(get_doc(params.uri, doctx).await?.map(|doc| doc.text))
+}
